@@ -38,6 +38,42 @@ class Infra(Exception):
     """Infrastructure failure: exit 2, never a verdict."""
 
 
+class Crash(Exception):
+    """The code under test killed the harness process (an unrecoverable panic in a library
+    goroutine, a runtime fatal error).  The violation is already registered; the check stops
+    and reports what it has."""
+
+
+def crash_origin(stderr, repo):
+    """(kind, function, message) of a Go crash trace: kind is "library" if the innermost frame
+    outside the Go runtime and the module cache lies in the repository under test, "harness" if
+    it lies in /verif/harness, None if there is no crash trace."""
+    lines = (stderr or "").splitlines()
+    start = None
+    for i, ln in enumerate(lines):
+        if ln.startswith("panic:") or ln.startswith("fatal error:"):
+            start = i
+            break
+    if start is None:
+        return None, None, None
+    msg = lines[start][:300]
+    # frames of the first goroutine block after the message
+    i = start + 1
+    while i < len(lines) and not lines[i].startswith("goroutine "):
+        i += 1
+    i += 1
+    repo = os.path.realpath(repo)
+    while i + 1 < len(lines) and lines[i].strip():
+        fn, loc = lines[i].strip(), lines[i + 1].strip()
+        path = loc.split(":")[0]
+        if path.startswith(repo + "/") or os.path.realpath(path).startswith(repo + "/"):
+            return "library", re.sub(r"\([^()]*\)$", "", fn), msg
+        if "/harness/cmd/drv/" in path:
+            return "harness", re.sub(r"\([^()]*\)$", "", fn), msg
+        i += 2
+    return None, None, msg
+
+
 def log(*a):
     print(*a, flush=True)
 
@@ -241,6 +277,13 @@ class Ctx:
         except subprocess.TimeoutExpired:
             raise Infra("harness %s timed out after %ss" % (args[:3], timeout))
         if check and p.returncode != 0:
+            kind, fn, msg = crash_origin(p.stderr, REPO)
+            if kind == "library":
+                # a crash inside the library on an input the harness considers valid: a verdict
+                self.violation("crash:%s:%s" % (args[0], fn.split("/")[-1]),
+                               "the harness process was killed by the code under test in %s: %s" % (fn, msg),
+                               {"command": [str(a) for a in args[:1]], "stderr_tail": (p.stderr or "")[-3000:]})
+                raise Crash(msg)
             raise Infra("harness %s failed rc=%s\n%s" % (args[:3], p.returncode, (p.stderr or "")[-3000:]))
         p.wall = time.time() - t
         return p
